@@ -79,7 +79,12 @@ CHECKS["C14"] = dict(
    text="Exploration: for every protocol step (reader and writer side) and every record field of generated packages (incl. imported packages and generic records) the composition of element encodings is parsed out of the generated Python binary module and the generated MATLAB +binary classes (constructor-expression parser plus a constructor table; MATLAB's column-major shape reversal undone) and compared with the plan derived from the IR: field order, fixed lengths, array ranks/shapes, map key/value encodings, enum base types, union case order and null handling, generic arguments. ~16 000 step/field comparisons per quick run. Unknown constructors are counted and skipped.",
    note="trusted: the constructor tables in harness/ref/plan.go; MATLAB is only read as text (no interpreter); the C++ and Python NDJSON backends are checked dynamically by C01-C03",
    ref="DESIGN.md section 3 (C14)")
-NOT_YET = {}
+CHECKS["C07"] = dict(
+   technique="model-based (state-machine) property testing: generated API call sequences checked against a reference step automaton per API",
+   text="Exploration: protocol shapes (1-8 steps, any stream pattern, plus hostile sizes 127-130 / 255-257 steps walked to the far end) x four generated call sequences - C++ writer (write / batch write / end / close), C++ reader (read / batch read with capacity / close, scripted source), Python writer (write / write iterable / close), Python reader (read / iterate n / close) - mostly along the legal path with arbitrary deviations, each ending at its first rejected call. The generated abstract base classes (which own the step state) are driven through stub implementations, C++ compiled, Python executed. Every call the reference automaton accepts must succeed with exactly the scripted data and end-of-stream indication; the first call it rejects must raise. Corners the documents leave open are not judged.",
+   note="trusted: harness/ref/steps.go (four ~50-line automata) and the stub generators; payloads are int32 (the state machine is payload-independent); MATLAB classes are not executed",
+   ref="DESIGN.md section 3 (C07)")
+NOT_YET = {"C05": "not built yet (evolution data conversions; planned)", "C19": "not built yet (computed fields; planned)", "C20": "not built yet (watch mode; planned)"}
 
 props = [json.loads(l) for l in open("properties.jsonl")]
 checks = []
